@@ -137,7 +137,14 @@ class Reg:
         cfg = self.config(space, state)
         resp = tabulate(sch, data)
         cube = Cube(resp, transforms=transforms_for(cfg), **cube_kw)
-        return sch, data, cfg, cube, partition_oracles(sch, data)
+        oracles = partition_oracles(sch, data)
+        if sch.numeric and not sch.numeric.get("numarr") and sch.numeric.get("valid_counts", True):
+            # a response carrying a numeric measure with valid counts tabulates the respondents who
+            # have a valid numeric answer: counts, bases and everything derived from them
+            for _k, _l, o in oracles:
+                if o is not None:
+                    o.data = [r for r in o.data if r[2] is not None]
+        return sch, data, cfg, cube, oracles
 
 
 def std_pairings(reg, W=(1, 2), with_subtotals=True, sizes=None):
@@ -180,9 +187,38 @@ def std_pairings(reg, W=(1, 2), with_subtotals=True, sizes=None):
     num = {"measures": ["mean"], "numarr": NA}
     reg.add(Schema("numarr_x_cat3", [B3], [("cat", 0)], numeric=dict(num)), (1,), NAV, configs=conly, quick=2, thorough=3)
     reg.add(Schema("numarr_x_mr", [M], [("mr", 0)], numeric=dict(num)), (1,), NAV, configs=[{}], quick=2, thorough=2)
+    # responses carrying a numeric mean with weighted and unweighted valid counts
+    nm = {"measures": ["mean"], "valid_counts": True}
+    reg.add(S.schema2("num_cat3_x_cat2_w", A3, B2, weighted=True, numeric=dict(nm)), W, (None, 1), configs=ronly,
+            quick=2, thorough=3)
+    reg.add(S.schema2("num_mr_x_cat2_w", M, B2, weighted=True, numeric=dict(nm)), W, (None, 1), configs=[{}],
+            quick=2, thorough=2)
+    reg.add(Schema("num_cat3_1d_w", [A3], [("cat", 0)], weighted=True, numeric=dict(nm)), W, (None, 1), configs=ronly,
+            quick=3, thorough=4)
     reg.add(Schema("cat3_1d", [A3], [("cat", 0)], weighted=True), W, configs=ronly, quick=4, thorough=5)
     reg.add(Schema("mr3_1d", [S.mr("n", 3)], [("mr", 0)], weighted=True), W, configs=[{}], quick=2, thorough=3)
     return reg
+
+
+def reverse_read(V, fresh, expected, tag=""):
+    """Order-of-reads guard. `fresh` is an untouched partition of an identical cube, `expected` maps output
+    name -> the oracle value the forward reading was compared with. The outputs are read in REVERSE order,
+    each value copied at the moment it is read, then read once more in forward order; every copy must
+    equal the oracle value too. Returns the number of comparisons."""
+    import numpy as np
+    from mc.compare import first_diff
+    from mc.engine import viol
+    names = list(expected)
+    k = 0
+    for phase, seq in (("reverse", list(reversed(names))), ("again", names)):
+        snap = {n: np.array(getattr(fresh, n), dtype=float, copy=True) for n in seq}
+        for n in seq:
+            k += 1
+            d = first_diff(snap[n], expected[n])
+            if d is not None:
+                V.append(viol("read_order:%s%s" % (n, tag), "%s read in %s order differs at %s: %r, oracle %r"
+                              % (n, phase, d[0], d[1], d[2]), output=n))
+    return k
 
 
 def expected_display(part, orc, cellfn):
